@@ -50,3 +50,76 @@ def c_get_field_by_id(ex, f, args, kwargs):
             return fo
     from pyvc.symex import PyRaise, make_exc
     raise PyRaise(make_exc('ValueError', f'Field with id {wanted!r} is missing'))
+
+
+from pyvc.report import Task
+
+
+class GetFieldDbTask(Task):
+    """get_field_by_id over the id universe of the database: for every encodable definition and every field id the
+    generated encoder asks for, the real function returns that field when it is present and raises ValueError when
+    exactly that field is missing (all ids concrete: complete for the finite set of id lists the database defines)."""
+    def __init__(self, prop, defs):
+        self.prop = prop
+        self.defs = defs
+        self.name = f'{prop}:get_field_by_id[{defs[0].suffix}..{defs[-1].suffix}]'
+
+    def run(self, tier):
+        from pyvc.symex import explore
+        from pyvc.solve import Obligation, discharge
+        from pyvc.tasks import budget, result_dict
+        from pyvc import values as V
+        out = {'results': [], 'functions': [], 'notes': [], 'bounded': []}
+        r = repo()
+        info = r.func('message.NMEA2000Message.get_field_by_id')
+        out['functions'].append(info.describe())
+        fcls, mcls = r.cls('message', 'NMEA2000Field'), r.cls('message', 'NMEA2000Message')
+        for d in self.defs:
+            ids = [f.expected_id for f in d.fields]
+            bad = []
+            for i, wanted in enumerate(ids):
+                for missing in (False, True):
+                    objs = [Obj(fcls, {'id': x, 'value': 0, 'raw_value': 0}) for x in ids]
+                    target = objs[ids.index(wanted)]
+                    present = [o for j, o in enumerate(objs) if not (missing and ids[j] == wanted)]
+                    msg = Obj(mcls, {'PGN': d.pgn, 'id': d.id, 'fields': present})
+                    try:
+                        res = explore(r, lambda ex: ex._run_body(info, [wanted], {}, msg))
+                    except V.Unsupported as u:
+                        bad.append(f'{wanted}: outside the modelled subset: {u}')
+                        continue
+                    if missing:
+                        ok = len(res) == 1 and res[0].kind == 'raise' and res[0].exc_name() == 'ValueError'
+                        if not ok:
+                            bad.append(f'{wanted} missing: {[(p.kind, getattr(p.value, "attrs", {}).get("id") if p.kind == "return" else p.exc_name()) for p in res]} instead of ValueError')
+                    else:
+                        ok = len(res) == 1 and res[0].kind == 'return' and res[0].value is target
+                        if not ok:
+                            bad.append(f'{wanted} present: not returned')
+            ob = Obligation(f'{self.prop}/message.NMEA2000Message.get_field_by_id[{d.suffix}]/present-field-returned-missing-field-raises', [], z3.BoolVal(not bad), kind='ensures',
+                            func=info.fullname, meta={'note': '; '.join(bad)[:300]})
+            res = discharge(ob, budget(tier))
+            dct = result_dict(res, with_size=False)
+            dct['function'] = info.fullname
+            if res.status == 'refuted':
+                dct['reason'] = ob.meta['note']
+                dct['replay'] = replay_missing(d)
+            out['results'].append(dct)
+        return out
+
+
+def replay_missing(d):
+    from nmea2000.message import NMEA2000Message, NMEA2000Field
+    ids = [f.expected_id for f in d.fields]
+    for wanted in ids:
+        fs = [NMEA2000Field(id=x) for x in ids if x != wanted]
+        m = NMEA2000Message(PGN=d.pgn, id=d.id, fields=fs)
+        try:
+            got = m.get_field_by_id(wanted)
+        except ValueError:
+            continue
+        except Exception as e:  # noqa
+            return {'confirmed': True, 'inputs': {'definition': d.id, 'field_ids': [f.id for f in fs], 'wanted': wanted}, 'observed': f'{type(e).__name__}', 'expected': 'ValueError'}
+        return {'confirmed': True, 'inputs': {'definition': d.id, 'field_ids': [f.id for f in fs], 'wanted': wanted}, 'observed': f'returned field {got.id!r}', 'expected': 'ValueError (the field is missing)',
+                'how': 'NMEA2000Message.get_field_by_id on the working tree'}
+    return {'confirmed': False}
